@@ -7,8 +7,11 @@ Every random decision goes through the Choices object; 0 is always the simplest 
 """
 
 SLOT_NAMES = ["a", "b", "dflt"]
-MEDIA_JS = ["shared.js", "a.js", "b.js"]
-MEDIA_CSS = ["shared.css", "x.css", "y.css"]
+# (the last ones: absolute URLs that differ only in their query string / fragment - distinct files, e.g. web-font or
+#  maps-API URLs; Django leaves absolute paths as they are)
+MEDIA_JS = ["shared.js", "a.js", "b.js", "/v/api.js?lib=places", "/v/api.js?lib=drawing"]
+MEDIA_CSS = ["shared.css", "x.css", "y.css", "https://f.example/css2?family=Lato", "https://f.example/css2?family=Roboto",
+             "/v/t.css#alt"]
 POOL = ["va", "vb", "vc"]
 PROVIDE_KWARGS = ["pva", "pvb", "pvc"]
 ELEM_TAGS = ["div", "span", "article", "section"]
